@@ -229,8 +229,8 @@ class Analyzer:
                 out = [out]
             iprobs = probabilities[i, :]
             error = 1
-            # Loop over expected outputs and subtract from error value
-            for o in out:
+            # Loop over distinct expected outputs and subtract from error value
+            for o in set(out):
                 if o in outputs:
                     loc = outputs.index(o)
                     error -= iprobs[loc] / sum(iprobs)
